@@ -1,6 +1,6 @@
 #!/bin/bash
 # usage: bin/try_seed.sh <patch.diff> <ID> [<ID>...]   -- apply a seeded change to /repo, run the quick checks, undo it
-patch=$1; shift
+patch=$(realpath "$1"); shift
 git -C /repo apply "$patch" || { echo "patch does not apply"; exit 3; }
 trap 'git -C /repo checkout -- .' EXIT
 for id in "$@"; do
